@@ -87,18 +87,20 @@ def stop_root(analysis: Analysis, spec) -> dict:
         outs = res
     rows = []
     pkey = ("attr", tasks.key(), "persistence")
-    ckey = ("attr", tasks.key(), "_cancel_save")
+    from .c15 import published_attrs
+
+    ckeys = {("attr", tasks.key(), a) for a in published_attrs(analysis, spec[2])}
     for out in outs:
         kind, s, v = out
         if kind == "raise" and v.cls.__name__ == "CancelledError" and "just cancelled" not in (v.what or ""):
             continue  # cancellation of stop() itself is not judged
         saves = [i for i, e in enumerate(s.events) if e.kind == "opaque" and e.name == "persistence:Persistence.save_sensors"]
-        cancels = [i for i, e in enumerate(s.events) if e.kind in ("call", "await") and isinstance(e.recv, V) and e.recv.key() == ckey]
+        cancels = [i for i, e in enumerate(s.events) if e.kind in ("call", "await") and isinstance(e.recv, V) and e.recv.key() in ckeys]
         disconnects = [i for i, e in enumerate(s.events) if e.kind == "opaque" and e.name.endswith(".disconnect")]
         stops = [i for i, e in enumerate(s.events) if e.kind == "call" and e.name.endswith("Event.set")]
         task_cancels = [i for i, e in enumerate(s.events) if e.kind == "call" and e.name == "asyncio.Task.cancel"]
         on = ("truthy", pkey) in s.facts
-        has_cancel = ("notnone", ckey) in s.facts or ("truthy", ckey) in s.facts
+        has_cancel = any(("notnone", ckey) in s.facts or ("truthy", ckey) in s.facts for ckey in ckeys)
         rows.append({"kind": kind, "on": on, "saves": saves, "cancels": cancels, "has_cancel": has_cancel, "disconnects": disconnects, "stops": stops, "task_cancels": task_cancels, "witness": describe_path(out, 20), "exc": v.cls.__name__ if kind == "raise" else None})
     return {"ctx": ctx.name, "qual": m.qual, "rows": rows}
 
